@@ -1,4 +1,4 @@
-import VyxalModel.Lemmas.CoreSim
+import VyxalModel.Lemmas.Closure
 import VyxalModel.Proofs.C05
 /-!
 # Token-level simulation lemmas and the structural induction for the closure-free fragment (C01, stage 2)
@@ -60,6 +60,10 @@ theorem sim_elem {σ : RSt} {π : PSt} (cfg : Cfg) (n : Nat) (key : Str) (e : Ge
     next h1 _ => rw [h1] at hsp; exact absurd hsp (by decide)
     next => simp at hr
   · rename_i hfn
+    have hnho : ¬ (e.helper = "vy_map" ∨ e.helper = "vy_filter" ∨ e.helper = "sort_by" ∨ e.helper = "vy_reduce") := by
+      intro hh
+      rcases hh with h1 | h1 | h1 | h1 <;> rw [h1] at hsp <;> exact absurd hsp (by decide)
+    simp only [hnho, ↓reduceIte] at hr
     cases hel : elemFn e.helper (σ.popK e.arity.toNat).1.reverse with
     | error er => simp [hel] at hr
     | ok r =>
@@ -81,7 +85,8 @@ theorem sim_elem {σ : RSt} {π : PSt} (cfg : Cfg) (n : Nat) (key : Str) (e : Ge
 theorem exec_pass (cfg : Cfg) (n : Nat) (π : PSt) : execPL cfg n [.pass] π = .ok (.normal, π) := by
   simp [execPL, execPS]
 
-theorem sim_tok {σ : RSt} {π : PSt} (cfg : Cfg) (env : TEnv) (hE : cfg.elements = env.elements) (n : Nat) (t : Token)
+theorem sim_tok {σ : RSt} {π : PSt} (cfg : Cfg) (env : TEnv) (hE : cfg.elements = env.elements) (n : Nat)
+    (hsim : ∀ m, n = m + 1 → SimAt cfg env m) (t : Token)
     (hf : fragTok env.elements t = true) (code : List PyStmt) (ht : transpileToken env t = .ok code)
     (h : Rel env A σ π) (sg : Sig) (σ' : RSt) (hr : execTok cfg n t σ = .ok (sg, σ')) :
     ∃ π', execPL cfg n code π = .ok (sigP sg, π') ∧ Post env A sg σ' π' := by
@@ -115,11 +120,12 @@ theorem sim_tok {σ : RSt} {π : PSt} (cfg : Cfg) (env : TEnv) (hE : cfg.element
         simp [hb] at ht; subst ht
         by_cases hok : elemOK e = true
         · exact sim_elem cfg n t.value e b hl hok hb h sg σ' hr
-        · have hco : coreEntryOK t.value e = true := by
-            cases hh : elemOK e with
-            | true => exact absurd hh hok
-            | false => simpa [hh] using hf
-          unfold coreEntryOK at hco
+        by_cases hho : hoElemOK e = true
+        · exact sim_hoElem cfg n hsim t.value e b hl hho hb h sg σ' hr
+        have hcases : coreEntryOK t.value e = true ∨ callEntryOK t.value e = true := by
+          cases h1 : elemOK e <;> cases h2 : hoElemOK e <;> simp_all
+        rcases hcases with hco | hca
+        · unfold coreEntryOK at hco
           simp only [Bool.and_eq_true, bne_iff_ne, ne_eq] at hco
           obtain ⟨hkind, hcb⟩ := hco
           unfold execElem at hr
@@ -129,6 +135,15 @@ theorem sim_tok {σ : RSt} {π : PSt} (cfg : Cfg) (env : TEnv) (hE : cfg.element
             rw [hb] at hcb
             simp only [hv, keyCh] at hr
             exact sim_core cfg n c b hcb h sg hr
+        · unfold callEntryOK at hca
+          simp only [Bool.and_eq_true, bne_iff_ne, ne_eq, beq_iff_eq] at hca
+          obtain ⟨⟨hkind, hkey⟩, hcb⟩ := hca
+          unfold execElem at hr
+          simp only [hl, hkind, ↓reduceIte] at hr
+          simp only [hkey, keyCh] at hr
+          rw [hb] at hcb
+          rw [isTmpl8224_sound b hcb]
+          exact sim_core_call cfg n hsim h sg hr
   case vget =>
     cases hv : t.value with
     | nil =>
@@ -202,9 +217,11 @@ theorem sim_tok {σ : RSt} {π : PSt} (cfg : Cfg) (env : TEnv) (hE : cfg.element
 
 
 
-theorem sim_brk {σ : RSt} {π : PSt} (cfg : Cfg) (n : Nat) (p : Parent) (hp : p ≠ .lam) (h : Rel env A σ π) (sg : Sig) (σ' : RSt)
+theorem sim_brk {σ : RSt} {π : PSt} (cfg : Cfg) (n : Nat) (p : Parent) (h : Rel env A σ π) (sg : Sig) (σ' : RSt)
     (hr : execS cfg n (.brk p) σ = .ok (sg, σ')) :
     ∃ π', execPL cfg n (breakTemplate p) π = .ok (sigP sg, π') ∧ Post env A sg σ' π' := by
+  by_cases hp : p = .lam
+  · subst hp; exact sim_brk_lam cfg n h sg σ' hr
   unfold execS at hr
   cases p <;> simp only [breakTemplate] at hr ⊢ <;> try (exact absurd rfl hp)
   all_goals first
@@ -221,7 +238,6 @@ theorem sim_brk {σ : RSt} {π : PSt} (cfg : Cfg) (n : Nat) (p : Parent) (hp : p
            refine ⟨{ π with ctxVals := r }, ?_, ?_⟩
            · simp [execPL_cons, exec_ctxPop cfg n π x r hpc, execPS, execPL, sigP]
            · exact ⟨{ σ with ctxVals := r }, by simp [RSt.dropCtx, hc], h.setCtxVals r⟩)
-
 
 theorem sim_recurse {σ : RSt} {π : PSt} (cfg : Cfg) (n : Nat) (p : Parent) (h : Rel env A σ π) (sg : Sig) (σ' : RSt)
     (hr : execS cfg n (.recurse p) σ = .ok (sg, σ')) :
@@ -278,16 +294,19 @@ theorem eval_iterable_pop {σ : RSt} {π : PSt} (cfg : Cfg) (n : Nat) (h : Rel e
 
 /-! ### whole programs -/
 
-theorem rel_init (flags : String) (inputs : List Val) : Rel env A (initState flags inputs) (initPy flags inputs) := by
-  refine ⟨rfl, rfl, rfl, ?_, rfl, rfl, rfl, rfl, rfl, rfl, rfl, rfl, ?_, ?_⟩
-  · by_cases hH : flags.contains 'H' <;> simp [initPy, initState, lookupP, hH]
-  · intro x hx hl
+theorem rel_init (flags : String) (inputs : List Val) : Rel env Option.none (initState flags inputs) (initPy flags inputs) := by
+  refine ⟨rfl, fun _ => rfl, ?_, rfl, rfl, rfl, rfl, rfl, rfl, rfl, rfl, rfl, rfl, ?_, ?_, ?_, rfl, ?_, ?_⟩
+  · by_cases hH : flags.contains 'H' <;> simp [initPy, initState, PSt.getVar, lookupP, hH]
+  · intro x hx hl _
     simp [initPy, initState, lookupP, lookupKV]
+  · intro hpos; simp [initState] at hpos
   · intro f hj hs
-    simp only [initPy, lookupP]
+    simp only [initPy, PSt.getVar, lookupP]
     have : ((("stack" : String), ([] : List Nat)) = (f, [])) = False := by
       simp; exact fun h => hs h.symm
     simp [this]
+  · intro id rf hid; simp [initState] at hid
+  · simp [initPy, PSt.getVar, lookupP]
 
 theorem pop1_printed (σ : RSt) : σ.pop1.2.printed = σ.printed := by
   simp only [RSt.pop1]; split <;> rfl
